@@ -14,26 +14,32 @@ Tr == INSTANCE Trim
 Nd(k, mode, kids, ch, name) == [k |-> k, mode |-> mode, kids |-> kids, ch |-> ch, name |-> name]
 TokByte(i) == 98 + i            \* c, d, e
 TokName(i) == IF i = 1 THEN "was expecting \"c\"" ELSE IF i = 2 THEN "was expecting \"d\"" ELSE "was expecting \"e\""
-\* nodes 3i-2 term, 3i-1 ltrim, 3i rtrim; then End; then the root SeqOf
-GrammarOf(k, l, r) ==
-  [n \in 1..(3 * k + 2) |->
-     IF n = 3 * k + 1 THEN Nd("end", "", <<>>, 0, "")
-     ELSE IF n = 3 * k + 2 THEN Nd("seq", "of", [j \in 1..(k + 1) |-> IF j <= k THEN 3 * j ELSE 3 * k + 1], 0, "")
-     ELSE LET i == (n + 2) \div 3 IN
-          CASE n % 3 = 1 -> Nd("term", "", <<>>, TokByte(i), TokName(i))
-            [] n % 3 = 2 -> Nd("ltrim", l[i], <<n - 1>>, 0, "")
+\* a token is Choice(SeqOf(t, x), t) when Sfx (an optional continuation x that never occurs in the text: the operand of the
+\* trims then leaves a non-fatal "was expecting x" behind the token, further to the right than a whitespace error of the
+\* left trim) and Choice(t) otherwise.  Nodes of token i: 6i-5 term t, 6i-4 term x, 6i-3 SeqOf(t, x), 6i-2 the Choice,
+\* 6i-1 ltrim, 6i rtrim; then End; then the root SeqOf
+GrammarOf(k, l, r, sfx) ==
+  [n \in 1..(6 * k + 2) |->
+     IF n = 6 * k + 1 THEN Nd("end", "", <<>>, 0, "")
+     ELSE IF n = 6 * k + 2 THEN Nd("seq", "of", [j \in 1..(k + 1) |-> IF j <= k THEN 6 * j ELSE 6 * k + 1], 0, "")
+     ELSE LET i == (n + 5) \div 6 IN
+          CASE n % 6 = 1 -> Nd("term", "", <<>>, TokByte(i), TokName(i))
+            [] n % 6 = 2 -> Nd("term", "", <<>>, 120, "was expecting \"x\"")
+            [] n % 6 = 3 -> Nd("seq", "of", <<n - 2, n - 1>>, 0, "")
+            [] n % 6 = 4 -> Nd("choice", "", IF sfx THEN <<n - 1, n - 3>> ELSE <<n - 3>>, 0, "")
+            [] n % 6 = 5 -> Nd("ltrim", l[i], <<n - 1>>, 0, "")
             [] OTHER -> Nd("rtrim", r[i], <<n - 1>>, 0, "")]
 
 ModeSet == {"none", "spaces", "nl", "forcenl"}
 GapStrings == UNION {[1..n -> GapAlphabet] : n \in 0..GapLen}
-Cases == {<<g, l, r>> : g \in [1..(NTok + 1) -> GapStrings], l \in [1..NTok -> ModeSet], r \in [1..NTok -> ModeSet]}
+Cases == {<<g, l, r, x>> : g \in [1..(NTok + 1) -> GapStrings], l \in [1..NTok -> ModeSet], r \in [1..NTok -> ModeSet], x \in BOOLEAN}
 CaseSeq == SetToSeq(Cases)
 Chosen == {CaseSeq[i] : i \in {j \in 1..Len(CaseSeq) : j % NSlices = Slice}}
 
 Init == \E c \in Chosen :
           LET tk == [i \in 1..NTok |-> TokByte(i)] IN
           /\ toks = tk /\ gaps = c[1] /\ lm = c[2] /\ rm = c[3] /\ rets = <<>>
-          /\ InitWith(GrammarOf(NTok, c[2], c[3]), Tr!TextOf(tk, c[1]), Base, 3 * NTok + 2)
+          /\ InitWith(GrammarOf(NTok, c[2], c[3], c[4]), Tr!TextOf(tk, c[1]), Base, 6 * NTok + 2)
 
 MStep == /\ Step
          /\ rets' = IF ret'.t = "ret" /\ G[stack[Len(stack)].n].k = "rtrim" /\ ret'.res # <<>> /\ ret'.err = NoErr
